@@ -634,6 +634,10 @@ class SplineObject(object):
         direction = check_direction(direction, self.pardim)
         slices = [slice(None, None, None) for _ in range(direction)] + [slice(None, None, -1)]
         self.controlpoints = self.controlpoints[tuple(slices)]
+        # for a periodic direction, the wrapped functions are shifted by the number of ghost functions
+        periodic = self.bases[direction].periodic
+        if periodic >= 0:
+            self.controlpoints = np.roll(self.controlpoints, periodic + 1, direction)
 
         return self
 
